@@ -173,6 +173,9 @@ func (s *scanner) setPaging(query ast.Query) {
 		query.SetSkip(0)
 	}
 	s.targetOffset = *query.GetSkip()
+	if s.targetOffset < 0 {
+		s.targetOffset = 0
+	}
 
 	if query.GetLimit() == nil || *query.GetLimit() < 0 {
 		query.SetLimit(math.MaxInt64)
@@ -208,7 +211,10 @@ func (scanner *memSortingScanner[T]) Scan(store *ObjectStore[T], query ast.Query
 	// Longer term, if we're looking for better performance, we could make a version of llrb which takes a comparator
 	// function instead of putting the comparison on the elements, so we don't need to store a context with each row
 	results := &llrb.Tree{}
-	maxResults := scanner.targetOffset + scanner.targetLimit
+	maxResults := int64(math.MaxInt64)
+	if scanner.targetLimit <= math.MaxInt64-scanner.targetOffset {
+		maxResults = scanner.targetOffset + scanner.targetLimit
+	}
 	for cursor.IsValid() {
 		rowCursor.current = cursor.Current()
 		cursor.Next()
